@@ -38,13 +38,34 @@ func c17Gen(t *rapid.T, cx *h.Ctx) C17Case {
 	for i := 0; i < 3 && (c.G.T == gm.Point || c.G.T == gm.MultiPoint); i++ {
 		c.OneCase = genOne(t, cx, true)
 	}
+	if rapid.IntRange(0, 7).Draw(t, "hairpin") == 0 {
+		// hairpin: a line that runs far out and comes back near its start, so that the chord
+		// between the end points is short compared with the excursion (Simplify's worst case)
+		x0, y0 := rapid.IntRange(-20, 20).Draw(t, "hx"), rapid.IntRange(-20, 20).Draw(t, "hy")
+		g := gm.G{T: gm.LineString, Co: gm.Fs(float64(x0), float64(y0))}
+		for i := rapid.IntRange(1, 3).Draw(t, "hfar"); i > 0; i-- {
+			g.Co = append(g.Co, gm.F(x0+rapid.IntRange(5, 30).Draw(t, "hdx")), gm.F(y0+rapid.IntRange(-30, 30).Draw(t, "hdy")))
+		}
+		g.Co = append(g.Co, gm.F(x0+rapid.IntRange(-2, 2).Draw(t, "hex")), gm.F(y0+rapid.IntRange(-2, 2).Draw(t, "hey")))
+		c.G = g
+		c.Family = "lattice"
+		c.Aff = [6]float64{1, 0, 0, 0, 1, 0}
+	}
 	c.CT = rapid.IntRange(0, 3).Draw(t, "ct")
+	// ring orientations are arbitrary in valid input: reverse individual rings at random
+	if rapid.Bool().Draw(t, "mixorientation") {
+		revs := rapid.SliceOfN(rapid.Bool(), 1, 8).Draw(t, "ringrev")
+		c.G = c03Represent(C03Case{G: c.G, RotSeed: []int{0}, Reverse: revs, PermSeed: []int{0}})
+	}
 	c.G = c16Tag(forceCT(c.G, c.CT))
 	c.DensifyF = rapid.SampledFrom([]float64{0.001, 0.01, 0.05, 0.1, 0.25, 0.5, 1, 2, 10}).Draw(t, "densify") * rapid.Float64Range(0.5, 1.5).Draw(t, "densifyj")
 	if rapid.IntRange(0, 3).Draw(t, "densifyexact") == 0 {
 		c.DensifyF = -float64(rapid.IntRange(1, 6).Draw(t, "densifyunits")) // negative: absolute distance = -value (an exact segment length is likely)
 	}
 	c.SimplF = rapid.SampledFrom([]float64{0, 0.001, 0.01, 0.05, 0.1, 0.2, 0.5, 1}).Draw(t, "simplify")
+	if rapid.Bool().Draw(t, "simplifyany") {
+		c.SimplF = float64(rapid.IntRange(0, 130).Draw(t, "simplifypct")) / 100
+	}
 	if rapid.IntRange(0, 3).Draw(t, "simplifyexact") == 0 {
 		c.SimplF = -float64(rapid.IntRange(0, 4).Draw(t, "simplifyunits")) // negative: absolute threshold = -value
 	}
@@ -234,18 +255,44 @@ func c17Simplify(model gm.G, g geom.Geometry, thr float64) *h.Failure {
 	in, os := lineSeqs(model), lineSeqs(out)
 	d := gm.Dim(model.CT)
 	// every output sequence must embed into some not yet used input sequence (order preserved; collapsed ones are dropped)
+	used := make([]bool, len(in))
+	defer func() {}()
 	k := 0
 	for _, o := range os {
 		ok := false
 		for ; k < len(in); k++ {
 			if in[k].ring == o.ring && c17Embedding(in[k].fs, o.fs, d, thr) {
 				ok = true
+				used[k] = true
 				k++
 				break
 			}
 		}
 		if !ok {
 			return h.Failf("simplify/not-a-valid-simplification", "Simplify(%v): output sequence %v is not a subsequence (same end points, every dropped vertex within the threshold of the line through its bracketing kept vertices) of any remaining input sequence\nresult = %s", thr, o.fs, clip(out.String(), 400))
+		}
+	}
+	// a ring may only disappear if it can be simplified, within the contract, to fewer than 4 positions:
+	// start, at most one interior vertex m, end - with everything before m near line(start,m) and after m near line(m,end)
+	for i, sq := range in {
+		if used[i] || !sq.ring {
+			continue
+		}
+		n := len(sq.fs) / d
+		collapsible := false
+		for m := 0; m < n && !collapsible; m++ {
+			var cand []gm.F
+			cand = append(cand, sq.fs[:d]...)
+			if m > 0 && m < n-1 {
+				cand = append(cand, sq.fs[m*d:m*d+d]...)
+			}
+			cand = append(cand, sq.fs[(n-1)*d:]...)
+			if c17Embedding(sq.fs, cand, d, thr) {
+				collapsible = true
+			}
+		}
+		if !collapsible {
+			return h.Failf("simplify/ring-dropped", "Simplify(%v) dropped ring %v although no simplification within the threshold has fewer than 4 positions\nresult = %s", thr, sq.fs, clip(out.String(), 400))
 		}
 	}
 	return nil
